@@ -459,6 +459,15 @@ fn exec_w<W: BitArray + Default>(t: &BackendTrace, ctx: &mut Ctx) -> Result<(), 
                 };
                 let Some(got) = got else { ctx.stats.hit("skipped-op"); continue };
                 ctx.stats.hit("op-cloned");
+                // `clone_from` into a cursor that holds something else, then continue on the copy:
+                // nothing observable may change (the following operations check it)
+                if let Obj::Cur(c) = &mut obj {
+                    let k = (m.pos * 7 + m.buf.len() * 3 + 1) % 11;
+                    let mut target = Cursor::new_at_pos(vec![W::default(); k], k / 2).expect("in range");
+                    target.clone_from(c);
+                    *c = target;
+                    ctx.stats.hit("op-clone-from");
+                }
                 if got != (m.buf.clone(), m.pos) {
                     viol!(ctx, "cloned", "cloned() = {:x?}, model ({:x?}, {})", got, m.buf, m.pos);
                 }
